@@ -390,6 +390,68 @@ fn exec(
             let h = store.cas_insert_sync(bytes).expect("cas_insert");
             json!({"hash": h.to_string()})
         }
+        "cas_fault" => {
+            // C10 on an error path: a write that fails (the content store's scratch directory is unusable for a moment) and
+            // is then repeated - whatever hash the successful call reports must read back
+            let bytes = base64::prelude::BASE64_STANDARD.decode(req["content"].as_str().unwrap()).unwrap();
+            let asynch = req["entry"].as_str() == Some("insert");
+            let put = |b: &[u8]| -> Result<ssri::Integrity, String> {
+                if asynch { rt.block_on(store.cas_insert(b)).map_err(|e| e.to_string()) } else { store.cas_insert_sync(b).map_err(|e| e.to_string()) }
+            };
+            let cache = store.path.join("cacache");
+            let tmp = cache.join("tmp");
+            let aside = cache.join("tmp.aside");
+            let _ = std::fs::create_dir_all(&cache);
+            let had = std::fs::rename(&tmp, &aside).is_ok();
+            let _ = std::fs::write(&tmp, b"not a directory");
+            let first = put(&bytes);
+            let _ = std::fs::remove_file(&tmp);
+            if had {
+                let _ = std::fs::rename(&aside, &tmp);
+            }
+            let second = put(&bytes);
+            let back = second.as_ref().ok().map(|h| store.cas_read_sync(h).ok());
+            json!({"first_failed": first.is_err(), "second_ok": second.is_ok(),
+                   "readable": back.clone().flatten().is_some(), "same": back.flatten().as_deref() == Some(&bytes[..]),
+                   "err": second.err()})
+        }
+        "cas_race" => {
+            // C10 under concurrency: several writers of the same (new, large) bytes through the entry points the processors
+            // use; whenever one of them returns a hash, the content is retrievable at that moment
+            let n = req["size"].as_u64().unwrap_or(4 << 20) as usize;
+            let seed = req["seed"].as_u64().unwrap_or(1);
+            let mut x = seed.wrapping_mul(0x9E3779B97F4A7C15) | 1;
+            let payload: Vec<u8> = (0..n)
+                .map(|_| {
+                    x ^= x << 13;
+                    x ^= x >> 7;
+                    x ^= x << 17;
+                    (x >> 24) as u8
+                })
+                .collect();
+            let payload = std::sync::Arc::new(payload);
+            let mut hs = vec![];
+            for i in 0..req["writers"].as_u64().unwrap_or(3) {
+                let (store, payload, rt) = (store.clone(), payload.clone(), rt.handle().clone());
+                hs.push(std::thread::spawn(move || {
+                    let r = if i % 2 == 0 {
+                        store.cas_insert_sync(payload.as_slice()).map_err(|e| e.to_string())
+                    } else {
+                        rt.block_on(store.cas_insert(payload.as_slice())).map_err(|e| e.to_string())
+                    };
+                    match r {
+                        Ok(h) => match store.cas_read_sync(&h) {
+                            Ok(b) => (true, b == *payload, h.to_string()),
+                            Err(_) => (false, false, h.to_string()),
+                        },
+                        Err(e) => (false, false, e),
+                    }
+                }));
+            }
+            let res: Vec<(bool, bool, String)> = hs.into_iter().map(|h| h.join().unwrap()).collect();
+            json!({"readable": res.iter().all(|r| r.0), "same": res.iter().all(|r| r.1),
+                   "one_hash": res.iter().all(|r| r.2 == res[0].2), "detail": res.iter().map(|r| r.2.clone()).collect::<Vec<_>>()})
+        }
         "cas_read" => {
             let h = ssri::Integrity::from_str(req["hash"].as_str().unwrap()).unwrap();
             match store.cas_read_sync(&h) {
